@@ -88,7 +88,7 @@ func RespDiff(op Op, a, b Resp) *Diff {
 		if !val.ItemEqual(a.LEK, b.LEK) {
 			return &Diff{Kind: op.K + "|last-evaluated-key", Detail: a.LEK.Canon() + " / " + b.LEK.Canon()}
 		}
-	case KCreate, KDeleteTbl, KDescribe, KCreateGSI, KDeleteGSI:
+	case KCreate, KDeleteTbl, KDescribe, KCreateGSI, KDeleteGSI, KUpdateTbl:
 		if (a.Desc == nil) != (b.Desc == nil) {
 			return &Diff{Kind: op.K + "|desc-presence", Detail: ""}
 		}
